@@ -1,6 +1,7 @@
 import Uflow.Driver.CodecMode
 import Uflow.Driver.HcMode
 import Uflow.Driver.EpMode
+import Uflow.Model.Heap
 
 /-! `uflow_driver <mode>`: runs a line-protocol script (stdin) against the Lean model and prints
 one output line per operation. A line starting with `===` separates cases: it is echoed and the
@@ -11,24 +12,49 @@ open Uflow.Driver
 def tokens (line : String) : List String :=
   (line.trimAscii.toString.splitOn " ").filter (· ≠ "")
 
+/-- Lengths of the packets handed to the application by an operation, read off its output line:
+`<ep> recv` prints `n len:fnv ...` (mode hc), `sstep` / `cstep i` print `ev R<peer>:len:fnv ... | ...` (mode ep). -/
+def deliveredLens (toks : List String) (out : String) : List Nat :=
+  match toks with
+  | [_, "recv"] => ((out.splitOn " ").drop 1).filterMap fun t => ((t.splitOn ":").head?).bind String.toNat?
+  | "sstep" :: _ | "cstep" :: _ =>
+    let evs := ((out.splitOn "|").head?.getD "").splitOn " "
+    evs.filterMap fun t => if t.startsWith "R" then ((t.splitOn ":")[1]?).bind String.toNat? else none
+  | _ => []
+
+/-- Heap ledger (C19): boxes of delivered multi-fragment packets whose drop would not match their block. -/
+def ledgerMismatches (toks : List String) (out : String) : Nat :=
+  ((deliveredLens toks out).filter fun len =>
+    len > Uflow.Gen.MAX_FRAGMENT_SIZE && !(Uflow.Heap.boxOfDelivered len).dropOk).length
+
 partial def loop {σ : Type} (h : IO.FS.Stream) (out : IO.FS.Stream) (init : σ)
-    (step : σ → List String → σ × String) (s : σ) : IO Unit := do
+    (step : σ → List String → σ × String) (s : σ) (mism : Nat := 0) : IO Unit := do
   let line ← h.getLine
   if line.isEmpty then return ()
   let toks := tokens line
   match toks with
-  | [] => loop h out init step s
+  | [] => loop h out init step s mism
   | t :: _ =>
-    if t.startsWith "#" then loop h out init step s
+    if t.startsWith "#" then loop h out init step s mism
     else if t.startsWith "===" then
       out.putStrLn line.trimAscii.toString
       out.flush
-      loop h out init step init
+      loop h out init step init mism
+    else if toks == ["reset"] then
+      out.putStrLn "ok"; out.flush
+      loop h out init step init mism
+    else if toks == ["heap", "on"] then
+      out.putStrLn "ok"; out.flush
+      loop h out init step s 0
+    else if toks == ["heap", "live"] then
+      -- the model holds no memory once the machine is reset: no growth from one session to the next
+      out.putStrLn s!"mism={mism} grow=0"; out.flush
+      loop h out init step s mism
     else
       let (s', o) := step s toks
       out.putStrLn o
       out.flush
-      loop h out init step s'
+      loop h out init step s' (mism + ledgerMismatches toks o)
 
 def main (args : List String) : IO UInt32 := do
   let stdin ← IO.getStdin
